@@ -52,6 +52,66 @@ func main() {
 	}
 	fmt.Println("].")
 	genPanicPath(repo)
+	genKeys(repo)
+}
+
+// genKeys: under which key expression AddEpochInfo checks existence and inserts, and under which BeginBlocker writes
+// back — relative to the info variable ("<info>.Identifier" = the info's own identifier field).
+func genKeys(repo string) {
+	norm := func(e ast.Expr, info string) string {
+		s := Nospace(e)
+		if info != "" && s == info {
+			return "<info>"
+		}
+		if info != "" && strings.HasPrefix(s, info+".") {
+			return "<info>." + strings.TrimPrefix(s, info+".")
+		}
+		return s
+	}
+	addExists, addInsert, bbInsert := "?", "?", "?"
+	for _, fl := range ParseDir(repo + "/x/epochs/keeper") {
+		for _, d := range fl.F.Decls {
+			fd, ok := d.(*ast.FuncDecl)
+			if !ok || fd.Body == nil || fd.Name.Name != "AddEpochInfo" {
+				continue
+			}
+			info := ""
+			ps := fd.Type.Params.List
+			if len(ps) > 0 && len(ps[len(ps)-1].Names) > 0 {
+				info = ps[len(ps)-1].Names[0].Name
+			}
+			ast.Inspect(fd.Body, func(n ast.Node) bool {
+				if c, ok := n.(*ast.CallExpr); ok {
+					f := Nospace(c.Fun)
+					if strings.HasSuffix(f, ".EpochExists") && len(c.Args) == 2 {
+						addExists = norm(c.Args[1], info)
+					}
+					if strings.HasSuffix(f, ".Epochs.Insert") && len(c.Args) == 3 {
+						addInsert = norm(c.Args[1], info) + " := " + norm(c.Args[2], info)
+					}
+				}
+				return true
+			})
+		}
+	}
+	for _, fl := range ParseDir(repo + "/x/epochs") {
+		for _, d := range fl.F.Decls {
+			fd, ok := d.(*ast.FuncDecl)
+			if !ok || fd.Body == nil || fd.Name.Name != "BeginBlocker" {
+				continue
+			}
+			ast.Inspect(fd.Body, func(n ast.Node) bool {
+				if c, ok := n.(*ast.CallExpr); ok && strings.HasSuffix(Nospace(c.Fun), ".Epochs.Insert") && len(c.Args) == 3 {
+					val := Nospace(c.Args[2])
+					bbInsert = norm(c.Args[1], val) + " := " + norm(c.Args[2], val)
+				}
+				return true
+			})
+		}
+	}
+	fmt.Printf("Definition add_exists_key : string := %s.\n", CoqString(addExists))
+	fmt.Printf("Definition add_insert : string := %s.\n", CoqString(addInsert))
+	fmt.Printf("Definition beginblock_insert : string := %s.\n", CoqString(bbInsert))
 }
 
 // genPanicPath: (a) every function of the non-test x/epochs code that calls the builtin recover (a hook panic must
